@@ -1,0 +1,15 @@
+//go:build verif
+
+package jobs
+
+import "reduction.dev/reduction/storage/snapshots"
+
+// VerifPendingSnapshot exposes the snapshot store's pending checkpoint to the harness.
+func (j *Job) VerifPendingSnapshot() *snapshots.VerifPending {
+	return j.snapshotStore.VerifPendingSnapshot()
+}
+
+// VerifStatus returns the job's status as a string.
+func (j *Job) VerifStatus() string {
+	return j.status.String()
+}
